@@ -65,23 +65,23 @@ type Exec struct {
 	aborted atomic.Bool
 	start   time.Time
 
-	Steps      int
-	Failure    string // machinery-level or scenario-level failure (panic, hang, divergence)
-	FailKind   string
-	Diverged   bool
+	Steps        int
+	Failure      string // machinery-level or scenario-level failure (panic, hang, divergence)
+	FailKind     string
+	Diverged     bool
 	Unregistered int
-	finished   atomic.Bool
-	MaxSteps   int
-	Horizon    time.Duration
-	Leaked     []string
-	MarkIdx    int // choices before this index are not branched on (see Mark)
+	finished     atomic.Bool
+	MaxSteps     int
+	Horizon      time.Duration
+	Leaked       []string
+	MarkIdx      int // choices before this index are not branched on (see Mark)
 	// DefaultTaken counts, per select label, how often an instrumented select
 	// with a default clause found no communication ready after the mark.
 	DefaultTaken map[string]int
 
-	free  bool          // RunFree: no scheduler, threads are plain goroutines
-	doneC chan struct{} // RunFree: closed by Finish
-	doneO sync.Once
+	free      bool          // RunFree: no scheduler, threads are plain goroutines
+	doneC     chan struct{} // RunFree: closed by Finish
+	doneO     sync.Once
 	freeStart []func()
 }
 
